@@ -42,8 +42,15 @@ func MaxSat(c Case) (out Case) {
 	switch str(c, "route") {
 	case "api":
 		var cs []maxsat.Constr
+		shared := map[string][]int{} // constraints with equal coefficient lists share one slice, as callers do
 		for _, k := range cons {
 			lits, w, rhs, weight := msLits(ints(k, "lits")), cp(ints(k, "w")), num(k, "rhs"), num(k, "weight")
+			key := fmt.Sprint(w)
+			if prev, ok := shared[key]; ok {
+				w = prev
+			} else {
+				shared[key] = w
+			}
 			switch str(k, "k") {
 			case "clause":
 				switch {
